@@ -459,15 +459,6 @@ def check_property(prop, tier, seed, replay=None):
         # 2. prove
         targets = [prop.properties_v + 'o'] + [t for t in prop.extra_targets]
         t1 = time.time()
-        if tier == 'thorough' and not replay:
-            # from-scratch rebuild of the property's closure
-            mkproject()
-            for f in coq_deps([prop.properties_v + 'o']) if os.path.exists(os.path.join(COQ, '.Makefile.d')) else []:
-                for ext in ('o', 'ok', 'os'):
-                    try:
-                        os.remove(f + ext)
-                    except FileNotFoundError:
-                        pass
         # force the Properties file to be recompiled so that Print Assumptions output is seen
         try:
             os.remove(os.path.join(COQ, prop.properties_v + 'o'))
@@ -510,14 +501,49 @@ def check_property(prop, tier, seed, replay=None):
         cov['theorems'] = names
         cov['assumptions_closed'] = closed
         cov['checker_cmd'] = 'cd coq && make -j16 ' + ' '.join(targets) + ' (coqc 8.16.1, full .vo)'
-        if tier == 'thorough' and proof_ok and not replay:
-            t2 = time.time()
+        thorough_scratch = (tier == 'thorough' and proof_ok and not replay)
+    if thorough_scratch:
+        # from-scratch rebuild of the property's closure + coqchk, in a private copy of the sources so that the
+        # shared build tree (other checks may be running) is never cleaned
+        t2 = time.time()
+        scratch = os.path.join(CACHE, 'coq-scratch', pid)
+        shutil.rmtree(scratch, ignore_errors=True)
+        os.makedirs(scratch)
+        for sub in ('Base', 'Gen', 'Spec', 'Model', 'Proofs', 'Properties', 'Refute'):
+            srcd = os.path.join(COQ, sub)
+            if not os.path.isdir(srcd):
+                continue
+            os.makedirs(os.path.join(scratch, sub))
+            for fn in os.listdir(srcd):
+                if fn.endswith('.v'):
+                    shutil.copy(os.path.join(srcd, fn), os.path.join(scratch, sub, fn))
+        # only the closure of this property (by the dependency file of the main tree)
+        closure_rel = [os.path.relpath(f, COQ) for f in coq_deps([prop.properties_v + 'o'])]
+        with open(os.path.join(scratch, '_CoqProject'), 'w') as f:
+            f.write(open(os.path.join(COQ, '_CoqProject.head')).read())
+            for r in sorted(closure_rel):
+                f.write(r + '\n')
+        rc1, out1 = run('coq_makefile -f _CoqProject -o Makefile >/dev/null && make -j8 ' + prop.properties_v + 'o', cwd=scratch, timeout=3000)
+        cov['clean_rebuild_s'] = round(time.time() - t2, 1)
+        cov['clean_rebuild_files'] = len(closure_rel)
+        if rc1 != 0:
+            violations.append(('proof', {'theorem_file': prop.properties_v, 'broken_at': 'clean rebuild', 'coq_error': out1[-2000:]}))
+        else:
+            t3 = time.time()
             lib = 'H3V.' + prop.properties_v[:-2].replace('/', '.')
-            rc2, out2 = run(['coqchk', '-silent', '-o', '-Q', '.', 'H3V', lib], cwd=COQ, timeout=3000)
-            cov['coqchk_s'] = round(time.time() - t2, 1)
+            rc2, out2 = run(['coqchk', '-silent', '-o', '-Q', '.', 'H3V', lib], cwd=scratch, timeout=3000)
+            cov['coqchk_s'] = round(time.time() - t3, 1)
             cov['coqchk'] = out2[-600:]
-            if rc2 != 0:
-                violations.append(('coqchk', {'output': out2[-2000:]}))
+            if rc2 != 0 or 'Axioms: <none>' not in out2.replace('\n  ', ' ').replace('* Axioms: <none>', 'Axioms: <none>'):
+                if rc2 != 0:
+                    violations.append(('coqchk', {'output': out2[-2000:]}))
+                else:
+                    ax = re.search(r'\* Axioms:(.*?)\n\s*\n', out2, re.S)
+                    axs = [a.strip() for a in (ax.group(1).split('\n') if ax else []) if a.strip() and a.strip() != '<none>']
+                    bad = [a for a in axs if a.split()[0] not in prop.allowed_axioms]
+                    if bad:
+                        violations.append(('assumptions', {'coqchk_axioms': bad}))
+        shutil.rmtree(scratch, ignore_errors=True)
     # 3. model + harness builds
     model_exe = None
     try:
